@@ -3,7 +3,10 @@
 R-ALG: every from_*SRT / from_*_translation constructor on Mat4/DMat4, Affine3A/DAffine3, Affine2/DAffine2 and Mat3 (2D forms)
 equals translation * rotation * scale of the documented elementary factors (so siblings agree); decomposition returns the last
 column as translation (bit copy), column lengths as scale with the determinant sign on x, and atan2(-y.x, y.y) as the 2D angle.
-Not decided: that recomposing the decomposition reproduces the input (needs orthogonality + inverse trigonometry)."""
+The rotation returned by to_scale_rotation_translation is from_rotation_axes of the columns each divided by its own returned scale
+(srt_rotation).  With C05 R-ROUNDTRIP (from_rotation_axes inverts from_quat up to sign) and the composition rule above this gives the
+recomposition identity for every matrix that is T*R*S with non-zero scale, in real arithmetic, as a chain of decided clauses; the chain is
+not re-derived as one polynomial identity here, and rounding is not bounded."""
 import re
 import terms as tm
 import nf
@@ -15,7 +18,7 @@ from common import api_roots, vec_info, tydef, atom_at, cell_term, TRUSTED_COMMO
 LEVEL = 'other'
 TECHNIQUE = 'polynomial identity checking of MIR-extracted matrix entries against T*R*S reference products; provenance analysis of decomposition outputs'
 EXPLANATION = ('Decides for all inputs that the SRT constructors are translation*rotation*scale (columns scaled, not rows; translation unscaled) on every matrix/affine type, '
-               'and that decomposition reads translation/scale/angle from the documented entries.  The round trip identity is not decided (numeric).')
+               'and that decomposition reads translation/scale/angle from the documented entries and rebuilds the rotation from the columns divided by the returned scale.  Rounding of the round trip is not bounded.')
 LEVEL_NOTE = 'Decides the composition clause and the structural part of decomposition. Trusted: rustc MIR, intrinsic table, rules/spec.py.'
 
 CONFIGS_QUICK = ['sse2', 'sse2-fma', 'sse41', 'scalar', 'coresimd', 'neon', 'wasm32']
